@@ -176,6 +176,14 @@ def main() -> None:
             pr = [pr[0], pr[1], [([rt[0], rt[1], A("coroutine"), None, [f"CORO_{rt[1]}"], rt[5], rt[6]] if r.random() < 0.5 else rt)
                                 for rt in pr[2]]]
         progs.append(pr)
+    # directed: routines that end in a call of an earlier label after a loop (the call closes a cycle and is the last op)
+    directed = ["def 0 {\n    while (debug) {\n        z();\n    }\n    @l1;\n    if (edit) {\n        a();\n    }\n    b();\n    call @l1;\n}\n",
+                "def 0 {\n    for (x(); debug; y();) {\n        z();\n    }\n    @l1;\n    b();\n    call @l1;\n}\n",
+                "def 0 {\n    forever {\n        z();\n        if (debug) {\n            break_loop;\n        }\n    }\n    @l1;\n    b();\n    call @l1;\n}\n"
+                "def 1 {\n    @l2;\n    while (edit) {\n        c();\n        call @l2;\n    }\n    call @l2;\n}\n"]
+    for el in run_impl([("lang:parse_and_elab", t) for t in directed]):
+        if el.get("ok"):
+            progs.append(el["ast"])
     texts = [print_prog(p) for p in progs]
     texts_extra = ["def 0 {\n    jump @nowhere;\n}\n", "def 0 {", ""]
     inproc = run_impl([("compile", t) for t in texts + texts_extra])
@@ -240,7 +248,7 @@ def main() -> None:
         run.fail(sig, "the printed JSON, numbered as documented (1-based positions), does not behave like the source: "
                  f"{eq.get('o1')} vs {eq.get('o2')}", {"source": st, "stdout": c["out"]})
     # feed to the decompile CLI
-    sub = idx[: (60 if q else 600)]
+    sub = idx[: (60 if q else 600)] + [i for i in idx[(60 if q else 600):] if i >= len(progs) - len(directed)]
     with ThreadPoolExecutor(16) as ex:
         decs = list(ex.map(cli_decompile, [clis[i]["out"] for i in sub]))
     back = run_impl([("compile", d["out"]) for d in decs])
